@@ -21,6 +21,8 @@ let run lines =
   | "spec08" -> Model.run_spec08 lines
   | "model18" -> Model.run_model18 lines
   | "spec18" -> Model.run_spec18 lines
+  | "aof" -> Model.run_aof lines
+  | "spec02" -> Model.run_spec02 lines
   | m -> failwith ("unknown mode " ^ m)
 
 let flush_script acc =
